@@ -20,7 +20,7 @@ META = {
     "explanation": "symbolic execution of add_to_frame / from_frame / instance_from_frame / __eq__ on "
                    "symbolic frames and numbers; obligations are unsat queries per path",
     "bounds": ["all 2^16 / 2^24 frames (symbolic)", "all legal address / group / instance numbers (symbolic)",
-               "wrong widths 1..64 (quick: 1..32)", "ReservedInstance objects (what reserved instance bytes decode to): refusal of wrong sizes and exact write-back", "decode histories: a symbolic frame of another width "
+               "wrong widths 1..64 (quick: 1..32)", "ReservedInstance objects (what reserved instance bytes decode to): refusal of wrong sizes and exact write-back", "write histories: the writers' slices written into frames of other widths first", "decode histories: a symbolic frame of another width "
                "(9/12/16/17/20/24/32 bits) decoded first", "all ordered pairs of the 8 address kinds and of the "
                "10 instance kinds + ReservedInstance"],
     "stubs": ["isinstance/int shims"],
